@@ -6,5 +6,5 @@ CONSTANTS
   NMax = @NMAX@
   Salt = @SALT@
   Palette = @PALETTE@
-INVARIANTS EmitInv GridOK
+INVARIANTS EmitInv GridOK ProdXOK
 CHECK_DEADLOCK FALSE
